@@ -3,7 +3,7 @@
 Reference side of the `guards_*` theorems (C03, C04, C07, C08, C09, C10, C14, C16, C17, C18, C20): every comparison of a quantity with a numeric
 literal — the small-argument guards of the windows (`kr > 1.4e-06`, `kr > 0.001`), HALOFIT's low-k cut (`k > 0.005`), the σ₈ integration
 range test, the validators' accepted ranges, the validity masks of the fits, the 10^16.5 limit of the automatic high-mass tail, … A changed
-constant or operator, a dropped guard or a *new* special case in these modules makes the regenerated table differ from this one. The tables are multisets: a test that occurs twice in a class is listed twice, so dropping one occurrence is a difference too. -/
+constant or operator, a dropped guard or a *new* special case in these modules makes the regenerated table differ from this one. The tables are multisets: a test that occurs twice in a class is listed twice, so dropping one occurrence is a difference too; a comparison stored in a local and used n times counts n times, so computing a repeated condition once (or inlining such a local) is not a difference. -/
 namespace Hmf.Spec.Guards
 
 def integrate : List (String × String) := [
@@ -73,6 +73,7 @@ def sample : List (String × String) := [
   ("", "_1 == 0.0"),
   ("", "_1 == 0.0"),
   ("", "_1.ngtm > 0.0"),
+  ("", "_1.ngtm > 0.0"),
   ("", "_1[-1] == 0.0"),
   ("", "_1[0] == 0.0")
 ]
@@ -88,6 +89,8 @@ def filters : List (String × String) := [
   ("TopHat", "_1 > 1.4e-06")
 ]
 def halofit : List (String × String) := [
+  ("", "_1 > 0.005"),
+  ("", "_1 > 0.005"),
   ("", "_1 > 0.005"),
   ("", "np.abs(1 - _1) > 0.01")
 ]
